@@ -80,9 +80,9 @@ CHECKS.update({
 
 CHECKS.update({
  "C08": ("exploration",
-         "deterministic simulation: funders create/merge/convert/claw back vesting accounts with seeded schedules; vesting accounts attempt every debit path of the op library (bank send, EVM value transfer, gov deposit, DAO fund, community-pool fund, liquidate, fees, delegate by message and by authz exec, convert-with-stake) while the clock jumps to schedule edges +-1 s, validators are slashed, the node restarts; independent event-list reference of the locked amount evaluated at block time after every successful tx",
+         "deterministic simulation: funders create/merge/convert/claw back vesting accounts with seeded schedules; vesting accounts attempt every debit path of the op library (bank send and multi-send, EVM value transfer, staking precompile called by the account, gov deposit, DAO fund, community-pool fund, liquidate, fees, delegate by message and by authz exec, convert-with-stake; in a sixth of the runs IBC transfers of the native coin by MsgTransfer and through the ICS-20 precompile on the two-chain world, with the relayer delivering, dropping until timeout and refunding) while the clock jumps to schedule edges +-1 s, validators are slashed, the node restarts; independent event-list reference of the locked amount evaluated at block time after every successful tx",
          "After every successful transaction (and every block) each vesting account's balance must be at least max(original - unlockedVested - trackedDelegated, unvested) computed by a reference that sums independent release events; after a delegation-type transaction the delegated amount must not exceed balance minus unvested.",
-         "trackedDelegated is read from the stored account (it is the account's own bookkeeping); IBC-transfer and precompile debit paths are not part of this profile at this commit; native denomination only.",
+         "trackedDelegated is read from the stored account (it is the account's own bookkeeping); contract-internal transfers (a contract forwarding the account's value) are covered only as plain value transfers; native denomination only. In the two-chain runs the locked amount is a constant (100 ISLM locked for ten million seconds, fully vested).",
          "DESIGN.md §4 C08"),
  "C09": ("exploration",
          "deterministic simulation over create/merge/convert/clawback/funder-update histories at seeded block times; after every vesting operation the stored account is compared with an independent event-list reference (union of grants, clawback = truncate + cap) at swept read times (every event instant -1/0/+1, block time, far future)",
